@@ -23,7 +23,7 @@ impl Prop for Since {
         Ok(PairCase { a, b, oa, ob })
     }
     fn check(c: &PairCase, cx: &mut Cx) -> Verdict {
-        if !c.a.valid() || !c.b.valid() || c.oa.abs() > 86_399 || c.ob.abs() > 86_399 {
+        if !c.a.valid() || !c.b.valid() || c.oa.unsigned_abs() > 86_399 || c.ob.unsigned_abs() > 86_399 {
             return Verdict::Skip("malformed case");
         }
         if c.a.day < cal::MIN_DAY + 1 || c.a.day > cal::MAX_DAY - 1 || c.b.day < cal::MIN_DAY + 1 || c.b.day > cal::MAX_DAY - 1 {
@@ -183,7 +183,7 @@ impl Prop for Inverts {
         Ok(InvCase { a: gen::inst(u, 1)?, off: gen::offset(u)?, unit: u.below(7)? as u8, n: gen::count(u)?, sub: u.coin(1, 2)? })
     }
     fn check(c: &InvCase, cx: &mut Cx) -> Verdict {
-        if !c.a.valid() || c.off.abs() > 86_399 || c.unit > 6 || c.a.day < cal::MIN_DAY + 1 || c.a.day > cal::MAX_DAY - 1 {
+        if !c.a.valid() || c.off.unsigned_abs() > 86_399 || c.unit > 6 || c.a.day < cal::MIN_DAY + 1 || c.a.day > cal::MAX_DAY - 1 {
             return Verdict::Skip("malformed case");
         }
         let ia = c.a.i();
